@@ -44,22 +44,23 @@ theorem owners_known {s : St} (h : Inv s) {k : String} {o : Nat} (hm : absMap s 
 /-! ### 2. effect of requests, replies -/
 
 /-- who `_inject_task1` acts for in the root daemon: a known peer acts for itself (an `OWNER` field must be
-absent, unknown or name the peer); an unknown peer (e.g. the reload of the queue files) acts for the known
-owner the `OWNER` field names -/
+absent, unknown or name the peer); a peer that is given but unknown acts for nobody (`complUid s peer = e` with
+`e ≠ notAUid` makes the peer known); only "no peer" (`notAUid`: the reload of the queue files) acts for the
+known owner the `OWNER` field names -/
 theorem effOwner_root {s : St} (hme : s.me = 0) (owner : Option Nat) (peer e : Nat) :
     effOwner s owner peer = some e ↔
       e ≠ notAUid ∧ ((complUid s peer = e ∧ (ownerC s owner = notAUid ∨ ownerC s owner = e)) ∨
-        (complUid s peer = notAUid ∧ ownerC s owner = e)) :=
-  effCore_root hme _ _ e
+        (peer = notAUid ∧ ownerC s owner = e)) :=
+  effOwner_root' hme owner peer e
 
-/-- … and in a user daemon (`me ≠ 0`): peer and `OWNER` field known and equal; or one of them known and
-equal to `me`, the other unknown or absent -/
+/-- … and in a user daemon (`me ≠ 0`): peer and `OWNER` field known and equal; or the peer known and equal to
+`me`, the field unknown or absent; or no peer at all (reload) and the field names `me` -/
 theorem effOwner_user {s : St} (hme : s.me ≠ 0) (owner : Option Nat) (peer e : Nat) :
     effOwner s owner peer = some e ↔
       e ≠ notAUid ∧ ((complUid s peer = e ∧ ownerC s owner = e) ∨
         (complUid s peer = e ∧ ownerC s owner = notAUid ∧ e = s.me) ∨
-        (complUid s peer = notAUid ∧ ownerC s owner = e ∧ e = s.me)) :=
-  effCore_user hme _ _ e
+        (peer = notAUid ∧ ownerC s owner = e ∧ e = s.me)) :=
+  effOwner_user' hme owner peer e
 
 /-- the owner acted for is a known user -/
 theorem effOwner_is_known {s : St} {owner : Option Nat} {peer e : Nat} (h : effOwner s owner peer = some e) :
@@ -137,19 +138,30 @@ naming another user fail) -/
 theorem known_peer_acts_for_itself {s : St} {p : Nat} (hk : Known s p) (owner : Option Nat) {e : Nat}
     (he : effOwner s owner p = some e) : e = p := effOwner_known_peer hk he
 
-/-- `isolation`, records: a request of the known user `p` neither adds, removes nor changes (`occ`,
-`maxSimul`, …) any record owned by somebody else -/
-theorem isolation_records {s : St} (h : Inv s) {p : Nat} (hk : Known s p) (ins : List Instr)
+/-- a socket peer, known or not, acts for nobody but itself -/
+theorem peer_acts_for_itself {s : St} {p : Nat} (hp : p ≠ notAUid) (owner : Option Nat) {e : Nat}
+    (he : effOwner s owner p = some e) : e = p := effOwner_peer hp he
+
+/-- a peer that is given but not in the password database can schedule nothing, whatever `OWNER` field the
+instruction carries: the request is refused and the state untouched -/
+theorem unknown_peer_cannot_inject {s : St} {p : Nat} (hp : p ≠ notAUid) (hk : ¬ Known s p) (uid : String)
+    (owner : Option Nat) (ms dur : Nat) (occ : List Nat) (isTask : Bool) :
+    inject s uid owner ms dur occ isTask p = (s, false) :=
+  inject_unknown_peer hp hk uid owner ms dur occ isTask
+
+/-- `isolation`, records: a request from any socket peer `p`, known or not, neither adds, removes nor changes
+(`occ`, `maxSimul`, …) any record owned by somebody else -/
+theorem isolation_records {s : St} (h : Inv s) {p : Nat} (hp : p ≠ notAUid) (ins : List Instr)
     (hs : ∀ i ∈ ins, instrSorted i) (t : DTask) (hne : t.owner ≠ p) :
-    t ∈ (cmdIcal s p ins).1.tasks ↔ t ∈ s.tasks := cmdIcal_others h hk ins hs t hne
+    t ∈ (cmdIcal s p ins).1.tasks ↔ t ∈ s.tasks := cmdIcal_others h hp ins hs t hne
 
 /-- `isolation`, map: … nor the map at any key owned by somebody else, nor does it create such a key -/
-theorem isolation {s : St} (h : Inv s) {p : Nat} (hk : Known s p) (ins : List Instr)
+theorem isolation {s : St} (h : Inv s) {p : Nat} (hp : p ≠ notAUid) (ins : List Instr)
     (hs : ∀ i ∈ ins, instrSorted i) (k : String) (o : Nat) (hne : o ≠ p) :
     absMap (cmdIcal s p ins).1 k = some o ↔ absMap s k = some o :=
-  cmdIcal_absMap_others h hk ins hs k o hne
+  cmdIcal_absMap_others h hp ins hs k o hne
 
-/-- `isolation`, any peer (root daemon reloading its queue, unknown peers): one instruction touches only
+/-- `isolation`, any peer (also "no peer": the root daemon reloading its queue): one instruction touches only
 records of the owner it acts for — the effective owner of a `sched`, the peer itself for a `cancel` -/
 theorem isolation_instr {s : St} (h : Inv s) (peer : Nat) (i : Instr) (t : DTask)
     (hne : ∀ e, actOwner s peer i = some e → t.owner ≠ e) :
@@ -202,6 +214,12 @@ example :
                       .req 1002 [.sched "k" (some 1001) 63 0 [10] true, .sched "j" none 1 0 [20] true],
                       .req 4711 [.sched "l" none 63 0 [10] true, .cancel "j"]]).2.2
       = [("j", true), ("k", false), ("j", false), ("l", false), ("j", false)] := by decide
+
+/-- a peer the password database does not know, naming root in the `OWNER` field: refused, nothing scheduled
+(before the repair of `_inject_task1` this task was accepted and would have run as root) -/
+example :
+    (run { me := 0 } [.req 1009 [.sched "evil" (some 0) 63 0 [10] true]]).2.2 = [("evil", false)] ∧
+    (run { me := 0 } [.req 1009 [.sched "evil" (some 0) 63 0 [10] true]]).1.tasks = [] := by decide
 
 /-- a user daemon (`me = 1001`) accepts a task of another known user when the `OWNER` field names that
 user (`effOwner_user`, first alternative), and would run it as that user; without the field it refuses -/
